@@ -133,7 +133,33 @@ def run(prog, rep, tier='quick', config='default'):
             else:
                 rep.violation('R15c', 'expansion-changes-affiliate-only', fn=ex.name, where=inserts[0].where(), detail='an inserted split row is not a clone of the global row')
         else:
-            rep.violation('R15c', 'anchor-lost:expansion-shape', fn=ex.name, detail='anchor lost: clone / affiliate store / insert in the global-split expansion')
+            # the per-affiliate rows made in a closure of an adaptor chain and put in with splice / extend:
+            # `affiliates.iter().map(|a| { let mut t = global.clone(); t.affiliate = a.clone(); t })`
+            cl_stores, cl_ok = {}, []
+            for g in prog.closures_of(ex):
+                st_here = {}
+                for b in g.blocks.values():
+                    for s2 in b['stmts']:
+                        fs = mir.place_fields(s2['dst'])
+                        if fs and any(of == TX for of, fl in fs):
+                            st_here.setdefault([fl for of, fl in fs if of == TX][0], g.where(s2))
+                if not st_here:
+                    continue
+                cl_stores.update(st_here)
+                ret = mir.provenance(g, 0)
+                cl_ok.append(any(c.short == 'clone' and TX in (g.ty.get(c.dst['l'], '') or '') for c in ret.calls))
+            puts = [c for c in ex.calls if c.short in ('splice', 'extend', 'insert', 'push') and re.search(r'vec::Vec', c.callee)]
+            all_stores = dict(stores)
+            all_stores.update(cl_stores)
+            if set(all_stores) - {'affiliate'}:
+                other = sorted(set(all_stores) - {'affiliate'})
+                rep.violation('R15c', 'expansion-changes-affiliate-only', where=all_stores[other[0]], fn=ex.name,
+                              detail='global-split expansion also overwrites Tx.%s: the per-affiliate rows must equal the global row except for the affiliate' % ', '.join(other))
+            elif cl_ok and all(cl_ok) and puts and 'affiliate' in all_stores:
+                rep.ok('R15c', 'expansion-changes-affiliate-only', where=all_stores['affiliate'], fn=ex.name,
+                       detail='each new row is a clone of the global split with only Tx.affiliate overwritten (built in a closure, put in with %s)' % puts[0].short)
+            else:
+                rep.violation('R15c', 'anchor-lost:expansion-shape', fn=ex.name, detail='anchor lost: clone / affiliate store / insert in the global-split expansion')
 
     # ------------------------------------------------------------------ R15d: the window scans handle splits
     scan = None
